@@ -27,7 +27,7 @@ PROPS["C20"] = {
     "exhaustive": ("thorough",),
     "rule": "exhaustive enumeration of all ordered pairs of vectors over {0,1,2,3} up to length 5 (quick) / 6 (thorough): "
             "From<Vec>, union, contains, find_first_following compared with BTreeSet; plus seeded random longer vectors "
-            "(<= 2000 elements) and Arc<str> elements. A pair is non-trivial when neither operand is empty; distinct = "
+            "(<= 2000 elements) and Arc<str> elements; plus a SIZE LADDER: 8 operand shapes (interleaved with shared values, long + tiny, equal, strict prefix, nested, random with duplicates) x lengths 0..70, then 2^k-1, 2^k, 2^k+1, 3*2^(k-1) up to 2^18 elements (ladder_pairs = 952, ladder_max_operand_length = 393216; under Miri up to 2^9). A pair is non-trivial when neither operand is empty; distinct = "
             "enumerated pairs (distinct by construction) + distinct random pairs by hash.",
     "assumptions": ["std::collections::BTreeSet as the model of a sorted set"],
 }
@@ -53,7 +53,7 @@ PROPS["C15"] = {
             "ordered iter, first_after at dates before/inside/after/far outside the window, equality under permutation and against "
             "sets differing by one date, serialize/deserialize round trip with exact byte consumption and three calendars "
             "concatenated in one stream; CompactYear/CompactMonth public methods against sets; every (month, day) of four years "
-            "enumerated singly. Non-trivial = history with >= 2 distinct dates; distinct by hash of the history.",
+            "enumerated singly; plus a SPAN LADDER: first and last stored year W years apart for W = 1..70, 2^k-1, 2^k, 2^k+1 up to 2^18 and the whole range chrono represents (524 285 years), built by appending, prepending and from the middle outwards, each through the full history check (span_ladder_histories = 321). Non-trivial = history with >= 2 distinct dates; distinct by hash of the history.",
     "assumptions": ["chrono's proleptic Gregorian calendar", "BTreeSet as the model of a sorted set"],
 }
 
@@ -159,7 +159,7 @@ PROPS["C18"] = {
     "workers": False,
     "special": _c18.special,
     "technique": "history monitor over fresh processes: concurrent results vs a sequential reference process, first use of the lazy tables raced through hook H3 gates/delays; thorough adds ThreadSanitizer and Miri",
-    "level_text": "A reference process evaluates a generated case list sequentially and probes history dependence (repeated calls; each case re-evaluated right after adversarial neighbours - same expression in another context / another expression in the same context at t-1d, t, t+1d, the context changed in ONE component at a time: calendar, country, zone, coordinates under the same zone, and always first the same coordinates under another zone; evaluated alone in a fresh thread; values sharing ONE parsed expression through clone + with_context evaluated alternately on the same day against independently parsed values); then fresh processes (lazy tables uninitialised) start 2..64 threads on a barrier, every thread walking its own permutation of the cases on shared Arc values, clones and fresh parses, with a rendez-vous before first use of each lazy table and delays of 0 / 50 us / 5 ms injected inside the initialisers (hook H3); every answer (state, next_change, 16 intervals, 3 daily schedules, holiday-calendar facts, inferred zone and country) is compared with the reference and identifies (thread, step, case). Thorough repeats the race under ThreadSanitizer (-Zbuild-std) and a reduced race (holiday tables only, light answers) under Miri with several scheduler seeds. Exploration of interleavings: the evidence reports in how many runs first use was actually contended.",
+    "level_text": "A reference process evaluates a generated case list sequentially and probes history dependence (repeated calls; each case re-evaluated right after adversarial neighbours - same expression in another context / another expression in the same context at t-1d, t, t+1d, the context changed in ONE component at a time: calendar, country, zone, coordinates under the same zone, and always first the same coordinates under another zone; evaluated alone in a fresh thread; 240 pairs of places with ADJACENT f64 latitudes and different daily schedules (found by bisection, every evaluation on a fresh thread) evaluated back to back on one thread, one of them in 15 ways (schedule_at / state / intervals on day D-2..D+2) right before the other's schedule of day D, in both orders (adjacent_coordinate_sequences ~ 6400); values sharing ONE parsed expression through clone + with_context evaluated alternately on the same day against independently parsed values); then fresh processes (lazy tables uninitialised) start 2..64 threads on a barrier, every thread walking its own permutation of the cases on shared Arc values, clones and fresh parses, with a rendez-vous before first use of each lazy table and delays of 0 / 50 us / 5 ms injected inside the initialisers (hook H3); every answer (state, next_change, 16 intervals, 3 daily schedules, holiday-calendar facts, inferred zone and country) is compared with the reference and identifies (thread, step, case). Thorough repeats the race under ThreadSanitizer (-Zbuild-std) and a reduced race (holiday tables only, light answers) under Miri with several scheduler seeds. Exploration of interleavings: the evidence reports in how many runs first use was actually contended.",
     "rule": "4 case lists (thorough 10) of 400 seeded (expression, context in {none, synthetic calendar, embedded country, fixed zone, explicit zone + coordinates, coordinates -> inferred zone+country}, instant) x 36 (thorough 200) fresh processes each over threads {2,4,16,64} x initialiser delay {0, 50 us, 5 ms} x gate on/off. evaluations = single evaluations of a case; distinct_nontrivial = distinct cases by hash (all are non-trivial: each yields a multi-part answer).",
     "assumptions": ["answers are compared as formatted strings of the public results", "Miri cannot run the tz-finder within budget: tz/country lazies are raced natively and under TSan only", "step budgets (hook H1, thread-local) make unbounded calls deterministic-cost; a budget cut is part of the compared answer"],
 }
@@ -171,7 +171,7 @@ PROPS["C12"] = {
     "special": _c12.special,
     "technique": "differential monitor across the FFI boundary: CPython drives the built extension module, every result compared with the Rust core's answer for the documented equivalent context",
     "level_text": "The extension module is built from /repo's working tree (as shipped, hooks off) and imported by the system CPython. Cases generated by the harness cover constructor argument combinations (timezone x country {none, valid, invalid} x coords {none, valid, invalid} x auto flags {True, False, None, omitted}), valid and invalid expressions, naive and aware datetimes in 10 zones, and the methods state, is_*, next_change, intervals(start[, end]), normalize, str, repr, validate; expected answers are computed by the Rust core for the context the constructor's documentation prescribes. The driver compares local fields, zone key and utc offset of every returned datetime, exception classes, None for 10000-01-01, and flags any pyo3 PanicException. Exploration.",
-    "rule": "seeded: ~40000 constructor cases quick (600000 thorough) x up to 10 calls each, 16 driver processes; datetimes cross the process boundary as (local fields | unix timestamp, zone key). The one constructor combination the documentation does not settle (timezone + coords + auto_timezone=False: are coordinates kept for sun events?) is judged on expressions without events only; a datetime comparison abstains (counted) when Python's tzdata and chrono-tz disagree on the offset of that local time. Non-trivial = object built and called; distinct by hash of the constructor arguments.",
+    "rule": "seeded: ~40000 constructor cases quick (600000 thorough) x up to 10 calls each, 16 driver processes; datetimes cross the process boundary as (local fields | unix timestamp, zone key); aware inputs are drawn from 1971..2036 in ten zones, and - under a naive or fixed-offset context, 10% / 4% of the calls - from the last 30 hours of 9999 / within a day of 1900-01-01 in zones whose offset is fixed there (UTC, Asia/Tokyo, Asia/Kolkata, Etc/GMT+12, Etc/GMT-14, Pacific/Honolulu), start and end in different zones. The one constructor combination the documentation does not settle (timezone + coords + auto_timezone=False: are coordinates kept for sun events?) is judged on expressions without events only; a datetime comparison abstains (counted) when Python's tzdata and chrono-tz disagree on the offset of that local time. Non-trivial = object built and called; distinct by hash of the constructor arguments.",
     "assumptions": ["the Rust core is the reference (decided by C01-C11)", "pyo3's datetime conversions are part of what is observed", "system tzdata vs chrono-tz differences are abstained on"],
 }
 
